@@ -1,116 +1,229 @@
-"""Delta-debugging minimiser over (programs, cancels, decisions, swarm) — DESIGN.md 3.9.
+"""Minimiser over (programs, cancels, decisions, swarm) — DESIGN.md 3.9.
 
-Every candidate is re-executed through the simulator and kept only if the same
-clause class fails.  Bounded by `budget` re-executions.
+Hierarchical delta debugging: ddmin over the statement list of every body, top-down,
+then unwrapping of compound statements, dropping of settings, simplification of
+leaves, ddmin over the recorded decision list.  Every candidate is re-executed through
+the simulator *as the first run of a brand-new process* and kept only if the same
+clause class fails.  Candidates are evaluated in batches (one process each, in
+parallel); within a batch the first success in generation order wins, so the result
+is a deterministic function of the input.
 """
 
 from __future__ import annotations
 
 import copy
-from typing import Callable, Iterator
+from typing import Callable
 
 from . import program
-
-
-def _paths(body: list, prefix: tuple = ()) -> Iterator[tuple]:
-    """Paths to every statement, deepest last within each body, in reverse order (delete from the end)."""
-    for i in reversed(range(len(body))):
-        stmt = body[i]
-        yield prefix + (i,)
-        for j, sub in enumerate(program.sub_bodies(stmt)):
-            yield from _paths(sub, prefix + (i, ('sub', j)))
-
-
-def _get_body(root: list, path: tuple) -> tuple[list, int]:
-    body = root
-    k = 0
-    while k < len(path) - 1:
-        stmt = body[path[k]]
-        _, j = path[k + 1]
-        body = program.sub_bodies(stmt)[j]
-        k += 2
-    return body, path[-1]
-
-
-def _candidates(spec: dict) -> Iterator[tuple[str, dict]]:
-    # 1. whole actors
-    for i, prog in enumerate(spec['programs']):
-        if prog:
-            cand = copy.deepcopy(spec)
-            cand['programs'][i] = []
-            yield f'empty actor {i}', cand
-    while False:
-        yield
-    # 2. swarm simplifications
-    sw = spec.get('swarm', {})
-    for key in ('fine', 'park_cb'):
-        if sw.get(key):
-            cand = copy.deepcopy(spec)
-            cand['swarm'][key] = False
-            yield f'{key} off', cand
-    # 3. cancels
-    for i in range(len(spec.get('cancels', []))):
-        cand = copy.deepcopy(spec)
-        del cand['cancels'][i]
-        yield f'drop cancel {i}', cand
-    # 4. statements: delete, then unwrap
-    for ai, prog in enumerate(spec['programs']):
-        for path in list(_paths(prog)):
-            cand = copy.deepcopy(spec)
-            body, idx = _get_body(cand['programs'][ai], path)
-            stmt = body[idx]
-            del body[idx]
-            yield f'delete {stmt[0]} in actor {ai}', cand
-            subs = program.sub_bodies(stmt)
-            if subs and stmt[0] in ('BLOCK', 'TRY', 'TIMEOUT', 'CTXRUN'):
-                cand = copy.deepcopy(spec)
-                body, idx = _get_body(cand['programs'][ai], path)
-                inner = program.sub_bodies(body[idx])[0]
-                body[idx : idx + 1] = inner
-                yield f'unwrap {stmt[0]} in actor {ai}', cand
-            if stmt[0] == 'BLOCK' and len(stmt[2]) > 1:
-                for key in list(stmt[2]):
-                    cand = copy.deepcopy(spec)
-                    body, idx = _get_body(cand['programs'][ai], path)
-                    del body[idx][2][key]
-                    yield f'drop {key} from block {stmt[1]}', cand
-            if stmt[0] == 'APPLY' and (stmt[2] != 'eager' or stmt[3] is not None):
-                cand = copy.deepcopy(spec)
-                body, idx = _get_body(cand['programs'][ai], path)
-                body[idx][2] = 'eager'
-                body[idx][3] = None
-                yield 'simplify APPLY', cand
-            if stmt[0] == 'SLEEP' and stmt[1] != 0:
-                cand = copy.deepcopy(spec)
-                body, idx = _get_body(cand['programs'][ai], path)
-                body[idx][1] = 0
-                yield 'SLEEP -> 0', cand
-    # 5. decisions
-    dec = spec.get('decisions')
-    if dec:
-        cand = copy.deepcopy(spec)
-        cand['decisions'] = []
-        yield 'no recorded decisions', cand
-        n = len(dec)
-        step = max(1, n // 2)
-        while step >= 1:
-            for start in range(0, n, step):
-                cand = copy.deepcopy(spec)
-                del cand['decisions'][start : start + step]
-                yield f'drop decisions[{start}:{start + step}]', cand
-            if step == 1:
-                break
-            step //= 2
 
 
 def trim(spec: dict) -> dict:
     spec = copy.deepcopy(spec)
     while len(spec['programs']) > 1 and not spec['programs'][-1]:
+        n = len(spec['programs']) - 1
         used = {s[1] for p in spec['programs'] for s in program.iter_statements(p) if s[0] == 'JOIN'}
-        if len(spec['programs']) - 1 in used:
+        used |= {c[1] for c in spec.get('cancels', [])}
+        if n in used:
             break
         spec['programs'].pop()
     return spec
+
+
+def _body_at(spec: dict, path: tuple) -> list:
+    body = spec['programs'][path[0]]
+    k = 1
+    while k < len(path):
+        body = program.sub_bodies(body[path[k]])[path[k + 1]]
+        k += 2
+    return body
+
+
+class _Shrinker:
+    def __init__(self, spec, clause, execute_many, budget, batch, log):
+        self.best = copy.deepcopy(spec)
+        self.best_res: dict | None = None
+        self.clause = clause
+        self.execute_many = execute_many
+        self.budget = budget
+        self.batch = max(1, batch)
+        self.used = 0
+        self.log = log
+
+    # ------------------------------------------------------------------ evaluation
+    def same(self, res: dict) -> bool:
+        return res['status'] == 'violation' and res['violation']['clause'] == self.clause
+
+    def first_success(self, cands: list[tuple[str, dict]]) -> int | None:
+        """Evaluates candidates (in batches); adopts and returns the index of the first that still fails."""
+        valid: list[tuple[int, str, dict]] = []
+        for i, (what, cand) in enumerate(cands):
+            try:
+                program.validate(cand)
+            except ValueError:
+                continue
+            valid.append((i, what, cand))
+        pos = 0
+        while pos < len(valid) and self.used < self.budget:
+            group = valid[pos : pos + min(self.batch, self.budget - self.used)]
+            results = self.execute_many([c for _, _, c in group])
+            self.used += len(group)
+            for (i, what, cand), res in zip(group, results):
+                if self.same(res):
+                    if res.get('decisions') is not None:
+                        cand['decisions'] = res['decisions']
+                    self.best, self.best_res = cand, res
+                    if self.log:
+                        self.log(f'shrink: {what} -> {program.count_statements(cand)} statements ({self.used} executions)')
+                    return i
+            pos += len(group)
+        return None
+
+    def variant(self, mutate: Callable[[dict], None]) -> dict:
+        cand = copy.deepcopy(self.best)
+        mutate(cand)
+        return cand
+
+    # ------------------------------------------------------------------ phases
+    def phase_global(self) -> bool:
+        progress = False
+        for _ in range(len(self.best['programs'])):
+            cands = []
+            for i, prog in enumerate(self.best['programs']):
+                if prog:
+                    cands.append((f'empty actor {i}', self.variant(lambda s, i=i: s['programs'].__setitem__(i, []))))
+            if len(cands) <= 1 or self.first_success(cands) is None:
+                break
+            progress = True
+        sw = self.best.get('swarm', {})
+        for key in ('fine', 'park_cb'):
+            if sw.get(key):
+                if self.first_success([(f'{key} off', self.variant(lambda s, key=key: s['swarm'].__setitem__(key, False)))]) is not None:
+                    progress = True
+        if self.best.get('cancels'):
+            if self.ddmin_list('cancels', lambda s: s['cancels']):
+                progress = True
+        return progress
+
+    def ddmin_list(self, what: str, getter: Callable[[dict], list]) -> bool:
+        """Classic ddmin (complement removal) over a list inside the spec."""
+        progress = False
+        n = 2
+        while self.used < self.budget:
+            items = getter(self.best)
+            size = len(items)
+            if size == 0:
+                break
+            n = min(n, size)
+            bounds = [(size * k // n, size * (k + 1) // n) for k in range(n)]
+            cands = []
+            for lo, hi in bounds:
+                if hi > lo:
+                    cands.append((f'drop {what}[{lo}:{hi}]', self.variant(lambda s, lo=lo, hi=hi: getter(s).__delitem__(slice(lo, hi)))))
+            k = self.first_success(cands)
+            if k is not None:
+                progress = True
+                n = max(n - 1, 2)
+                continue
+            if n >= size:
+                break
+            n = min(size, n * 2)
+        return progress
+
+    def min_body(self, path: tuple) -> bool:
+        progress = self.ddmin_list(f'statements at {path}', lambda s: _body_at(s, path))
+        # recurse into what is left
+        i = 0
+        while self.used < self.budget:
+            body = _body_at(self.best, path)
+            if i >= len(body):
+                break
+            for j, _ in enumerate(program.sub_bodies(body[i])):
+                if self.min_body(path + (i, j)):
+                    progress = True
+            i += 1
+        return progress
+
+    def phase_unwrap(self) -> bool:
+        progress = False
+        changed = True
+        while changed and self.used < self.budget:
+            changed = False
+            cands = []
+            for ai, prog in enumerate(self.best['programs']):
+                for path in self._stmt_paths(prog, (ai,)):
+                    body = _body_at(self.best, path[:-1])
+                    stmt = body[path[-1]]
+                    if stmt[0] in ('BLOCK', 'TRY', 'TIMEOUT', 'CTXRUN'):
+
+                        def unwrap(s, path=path):
+                            b = _body_at(s, path[:-1])
+                            inner = program.sub_bodies(b[path[-1]])[0]
+                            b[path[-1] : path[-1] + 1] = inner
+
+                        cands.append((f'unwrap {stmt[0]}', self.variant(unwrap)))
+            if self.first_success(cands) is not None:
+                progress = changed = True
+        return progress
+
+    def _stmt_paths(self, body: list, prefix: tuple):
+        for i, stmt in enumerate(body):
+            yield prefix + (i,)
+            for j, sub in enumerate(program.sub_bodies(stmt)):
+                yield from self._stmt_paths(sub, prefix + (i, j))
+
+    def phase_leaves(self) -> bool:
+        progress = False
+        changed = True
+        while changed and self.used < self.budget:
+            changed = False
+            cands = []
+            for ai, prog in enumerate(self.best['programs']):
+                for path in self._stmt_paths(prog, (ai,)):
+                    stmt = _body_at(self.best, path[:-1])[path[-1]]
+                    if stmt[0] == 'BLOCK' and len(stmt[2]) > 1:
+                        for key in sorted(stmt[2]):
+                            cands.append((f'drop {key} from block {stmt[1]}', self.variant(lambda s, path=path, key=key: _body_at(s, path[:-1])[path[-1]][2].pop(key))))
+                    if stmt[0] == 'APPLY' and (stmt[2] != 'eager' or stmt[3] is not None):
+
+                        def simp(s, path=path):
+                            st = _body_at(s, path[:-1])[path[-1]]
+                            st[2], st[3] = 'eager', None
+
+                        cands.append(('simplify APPLY', self.variant(simp)))
+                    if stmt[0] in ('APPLY', 'ROUNDTRIP') and stmt[1] != 0:
+                        cands.append((f'{stmt[0]} index -> 0', self.variant(lambda s, path=path: _body_at(s, path[:-1])[path[-1]].__setitem__(1, 0))))
+                    if stmt[0] == 'SLEEP' and stmt[1] != 0:
+                        cands.append(('SLEEP -> 0', self.variant(lambda s, path=path: _body_at(s, path[:-1])[path[-1]].__setitem__(1, 0))))
+                    if stmt[0] == 'CREATE' and stmt[1] not in ('single:A',):
+                        cands.append(('CREATE -> single:A', self.variant(lambda s, path=path: _body_at(s, path[:-1])[path[-1]].__setitem__(1, 'single:A'))))
+            if self.first_success(cands) is not None:
+                progress = changed = True
+        return progress
+
+    def phase_decisions(self) -> bool:
+        dec = self.best.get('decisions')
+        if not dec:
+            return False
+        if self.first_success([('no recorded decisions', self.variant(lambda s: s.__setitem__('decisions', [])))]) is not None:
+            return True
+        return self.ddmin_list('decisions', lambda s: s['decisions'])
+
+    def run(self) -> None:
+        progress = True
+        rounds = 0
+        while progress and self.used < self.budget and rounds < 4:
+            rounds += 1
+            progress = False
+            progress |= self.phase_global()
+            for ai in range(len(self.best['programs'])):
+                if self.best['programs'][ai]:
+                    progress |= self.min_body((ai,))
+            progress |= self.phase_unwrap()
+            progress |= self.phase_leaves()
+            progress |= self.phase_decisions()
+        trimmed = trim(self.best)
+        if trimmed != self.best and self.used < self.budget + 1:
+            self.first_success([('trim empty trailing actors', trimmed)])
 
 
 def minimise(
@@ -121,62 +234,7 @@ def minimise(
     batch: int = 16,
     log: Callable[[str], None] | None = None,
 ) -> tuple[dict, dict | None, int]:
-    """Returns (minimal spec, its result or None if nothing was kept, executions used).
-
-    `execute_many` runs each spec as the first run of a brand-new process (so that no
-    candidate can be influenced by what an earlier, violating candidate left behind in
-    process-global state of a broken implementation) and returns results in order.
-    Candidates are evaluated in batches; the first one, in generation order, that still
-    violates the same clause is kept.
-    """
-
-    def same(res: dict) -> bool:
-        return res['status'] == 'violation' and res['violation']['clause'] == clause
-
-    best = copy.deepcopy(spec)
-    best_res: dict | None = None
-    used = 0
-    progress = True
-    while progress and used < budget:
-        progress = False
-        pending: list[tuple[str, dict]] = []
-
-        def flush() -> bool:
-            nonlocal best, best_res, used, progress
-            if not pending:
-                return False
-            results = execute_many([c for _, c in pending])
-            used += len(pending)
-            for (what, cand), res in zip(pending, results):
-                if same(res):
-                    if res.get('decisions') is not None:
-                        cand['decisions'] = res['decisions']
-                    best, best_res = cand, res
-                    progress = True
-                    if log:
-                        log(f'shrink: {what} kept ({program.count_statements(best)} statements)')
-                    pending.clear()
-                    return True
-            pending.clear()
-            return False
-
-        for what, cand in _candidates(best):
-            try:
-                program.validate(cand)
-            except ValueError:
-                continue
-            pending.append((what, cand))
-            if len(pending) >= batch or used + len(pending) >= budget:
-                if flush() or used >= budget:
-                    break
-        else:
-            flush()
-    trimmed = trim(best)
-    if trimmed != best:
-        res = execute_many([trimmed])[0]
-        used += 1
-        if same(res):
-            if res.get('decisions') is not None:
-                trimmed['decisions'] = res['decisions']
-            best, best_res = trimmed, res
-    return best, best_res, used
+    """Returns (minimal spec, its result or None if nothing smaller failed, executions used)."""
+    sh = _Shrinker(spec, clause, execute_many, budget, batch, log)
+    sh.run()
+    return sh.best, sh.best_res, sh.used
